@@ -449,4 +449,105 @@ theorem cleaveSync_inv (s : LSt) (target cleaved : Nat) (svs : List Nat) (ht : t
 
 end LabelEvents
 
+section LabelEdits
+open Dvid.AnnLabel
+
+/-- the label lists are exactly the elements on each body, and positions are distinct in every list -/
+def LInv2 (s : LSt) : Prop := PosNodup s.elems ∧ (∀ b, b ≠ 0 → PosNodup (s.idx b)) ∧ LInv s
+
+/-- **POST of elements** keeps every body's list the exact view of the element set -/
+theorem postLabels_inv (s : LSt) (new : List Elem) (hn : PosNodup new) (h : LInv2 s) : LInv2 (postLabels s new) := by
+  obtain ⟨he, hi, hl⟩ := h
+  have hE := addList_spec s.elems new he hn
+  have hadds : ∀ b, PosNodup ((new.filter fun e => decide (s.labelOf e.pos = b)).map nr) := fun b =>
+    posNodup_map_nr _ (posNodup_sublist List.filter_sublist hn)
+  have hlab : ∀ p, (postLabels s new).labelOf p = s.labelOf p := fun _ => rfl
+  refine ⟨hE.1, ?_, ?_⟩
+  · intro b hb
+    show PosNodup (if Gen.annLabelSkipsZero && decide (b = 0) then s.idx b else _)
+    simp only [hb, decide_false, Bool.and_false, Bool.false_eq_true, if_false, Gen.annLabelPostReplacesSamePos, if_true]
+    split
+    · exact hi b hb
+    · exact (addList_spec _ _ (hi b hb) (hadds b)).1
+  · intro b x hb
+    show x ∈ (if Gen.annLabelSkipsZero && decide (b = 0) then s.idx b else _) ↔ ∃ e ∈ addList s.elems new, (postLabels s new).labelOf e.pos = b ∧ x = nr e
+    simp only [hb, decide_false, Bool.and_false, Bool.false_eq_true, if_false, hlab, Gen.annLabelPostReplacesSamePos, if_true]
+    have memAdds : ∀ y, y ∈ (new.filter fun e => decide (s.labelOf e.pos = b)).map nr ↔ ∃ n ∈ new, s.labelOf n.pos = b ∧ y = nr n := by
+      intro y
+      simp only [List.mem_map, List.mem_filter, decide_eq_true_eq]
+      constructor
+      · rintro ⟨n, ⟨hn1, hn2⟩, rfl⟩; exact ⟨n, hn1, hn2, rfl⟩
+      · rintro ⟨n, hn1, hn2, rfl⟩; exact ⟨n, ⟨hn1, hn2⟩, rfl⟩
+    split
+    · rename_i hemp
+      have hnone : ∀ n ∈ new, s.labelOf n.pos ≠ b := by
+        intro n hn1 hn2
+        have : nr n ∈ (new.filter fun e => decide (s.labelOf e.pos = b)).map nr := (memAdds _).2 ⟨n, hn1, hn2, rfl⟩
+        rw [List.isEmpty_iff] at hemp
+        rw [hemp] at this; cases this
+      constructor
+      · intro hx
+        obtain ⟨e, hee, hlb, rfl⟩ := (hl b x hb).1 hx
+        refine ⟨e, (hE.2 e).2 (Or.inr ⟨hee, ?_⟩), hlb, rfl⟩
+        intro a ha hpa
+        exact hnone a ha (by rw [hpa]; exact hlb)
+      · rintro ⟨e, hee, hlb, rfl⟩
+        rcases (hE.2 e).1 hee with hnew | ⟨hold, _⟩
+        · exact absurd hlb (hnone e hnew)
+        · exact (hl b _ hb).2 ⟨e, hold, hlb, rfl⟩
+    · rw [(addList_spec _ _ (hi b hb) (hadds b)).2 x]
+      constructor
+      · rintro (hx | ⟨hx, hno⟩)
+        · obtain ⟨n, hn1, hn2, rfl⟩ := (memAdds x).1 hx
+          exact ⟨n, (hE.2 n).2 (Or.inl hn1), hn2, rfl⟩
+        · obtain ⟨e, hee, hlb, rfl⟩ := (hl b x hb).1 hx
+          refine ⟨e, (hE.2 e).2 (Or.inr ⟨hee, ?_⟩), hlb, rfl⟩
+          intro a ha hpa
+          exact hno (nr a) ((memAdds _).2 ⟨a, ha, by rw [hpa]; exact hlb, rfl⟩) (by rw [nr_pos, nr_pos]; exact hpa)
+      · rintro ⟨e, hee, hlb, rfl⟩
+        rcases (hE.2 e).1 hee with hnew | ⟨hold, hno⟩
+        · exact Or.inl ((memAdds _).2 ⟨e, hnew, hlb, rfl⟩)
+        · refine Or.inr ⟨(hl b _ hb).2 ⟨e, hold, hlb, rfl⟩, ?_⟩
+          intro a ha
+          obtain ⟨n, hn1, _, rfl⟩ := (memAdds a).1 ha
+          rw [nr_pos, nr_pos]; exact hno n hn1
+
+theorem mem_removePos (l : List Elem) (p : Pos) (x : Elem) : x ∈ removePos l p ↔ x ∈ l ∧ x.pos ≠ p := by
+  simp [removePos]
+
+/-- **DELETE of an element** keeps every body's list the exact view of the element set -/
+theorem deleteLabels_inv (s : LSt) (p : Pos) (h : LInv2 s) : LInv2 (deleteLabels s p) := by
+  obtain ⟨he, hi, hl⟩ := h
+  refine ⟨posNodup_sublist List.filter_sublist he, ?_, ?_⟩
+  · intro b hb
+    show PosNodup (if Gen.annLabelDeleteRemovesAtPoint && decide (b = s.labelOf p) then removePos (s.idx b) p else s.idx b)
+    simp only [Gen.annLabelDeleteRemovesAtPoint, Bool.true_and, decide_eq_true_eq]
+    split
+    · exact posNodup_sublist List.filter_sublist (hi b hb)
+    · exact hi b hb
+  · intro b x hb
+    show x ∈ (if Gen.annLabelDeleteRemovesAtPoint && decide (b = s.labelOf p) then removePos (s.idx b) p else s.idx b) ↔
+      ∃ e ∈ removePos s.elems p, s.labelOf e.pos = b ∧ x = nr e
+    simp only [Gen.annLabelDeleteRemovesAtPoint, Bool.true_and, decide_eq_true_eq]
+    split
+    · rw [mem_removePos]
+      constructor
+      · rintro ⟨hx, hxp⟩
+        obtain ⟨e, hee, hlb, rfl⟩ := (hl b x hb).1 hx
+        exact ⟨e, (mem_removePos _ _ _).2 ⟨hee, hxp⟩, hlb, rfl⟩
+      · rintro ⟨e, hee, hlb, rfl⟩
+        have := (mem_removePos _ _ _).1 hee
+        exact ⟨(hl b _ hb).2 ⟨e, this.1, hlb, rfl⟩, this.2⟩
+    · rename_i hne
+      constructor
+      · intro hx
+        obtain ⟨e, hee, hlb, rfl⟩ := (hl b x hb).1 hx
+        refine ⟨e, (mem_removePos _ _ _).2 ⟨hee, ?_⟩, hlb, rfl⟩
+        intro hp; apply hne; rw [← hlb, hp]
+      · rintro ⟨e, hee, hlb, rfl⟩
+        exact (hl b _ hb).2 ⟨e, ((mem_removePos _ _ _).1 hee).1, hlb, rfl⟩
+
+
+end LabelEdits
+
 end Dvid.Props.C13
